@@ -12,6 +12,7 @@ import numpy as np
 from static_frame.core.array_go import ArrayGO
 from static_frame.core.container_util import index_from_optional_constructor
 from static_frame.core.doc_str import doc_inject
+from static_frame.core.exception import ErrorInitIndex
 from static_frame.core.exception import ErrorInitIndexLevel
 from static_frame.core.hloc import HLoc
 from static_frame.core.index import ILoc
@@ -895,13 +896,18 @@ class IndexLevelGO(IndexLevel):
         for depth, k in enumerate(key):
             edge_nodes[depth] = node
             # only set on first encounter in descent
-            if depth_not_found == -1 and not node.index.__contains__(k):
-                depth_not_found = depth
+            if depth_not_found == -1:
+                if not node.index.__contains__(k):
+                    depth_not_found = depth
+                elif (node.targets is not None
+                        and node.index.loc_to_iloc(k) != node.index.__len__() - 1):
+                    # only the right-most edge can grow: re-entering an earlier sub-tree is not tree-form
+                    raise ErrorInitIndex(f'invalid tree-form for IndexHierarchy: {k} in {key} cannot be appended after other labels at depth {depth} have been defined.')
             if node.targets is not None:
                 node = node.targets[-1]
 
         if depth_not_found == -1:
-            raise RuntimeError('unable to set depth_not_found') #pragma: no cover
+            raise KeyError(f'duplicate key append attempted: {key}')
 
         level_previous = None
 
